@@ -41,6 +41,7 @@ func TestVerifC14Config(t *testing.T) {
 		"ff02::fb",         // 11 sorts last
 		"::1",              // 12 sorts first
 		"fe80::1%eth0",     // 13 = 4 with a zone (accepting both puts fe80::1 into the option twice)
+		"::%eth0",          // 14 the wildcard with a zone (was advertised as a literal :: server)
 	}
 	addrLists := [][]system.IP{
 		{verifw.IP("fd00::53/64", "f"), verifw.IP("2001:db8::1/64", "")},
